@@ -32,6 +32,15 @@ impl Torrent {
     }
 
     pub fn with_announce(name: &str, piece_len: usize, files: &[(&str, usize)], single: bool, announce: &str) -> Torrent {
+        Self::try_with_announce(name, piece_len, files, single, announce).expect("fixture torrent must parse")
+    }
+
+    /// Like `new`, but a torrent the client refuses at parse time is an `Err` (hostile names/paths).
+    pub fn try_new(name: &str, piece_len: usize, files: &[(&str, usize)], single: bool) -> Result<Torrent, String> {
+        Self::try_with_announce(name, piece_len, files, single, "http://tracker.invalid/announce")
+    }
+
+    pub fn try_with_announce(name: &str, piece_len: usize, files: &[(&str, usize)], single: bool, announce: &str) -> Result<Torrent, String> {
         let total: usize = files.iter().map(|f| f.1).sum();
         let content = content(total);
         let pieces: Vec<Vec<u8>> = if piece_len == 0 { vec![] } else { content.chunks(piece_len).map(|c| c.to_vec()).collect() };
@@ -50,8 +59,12 @@ impl Torrent {
         info.push(("piece length", V::Int(piece_len as i64)));
         info.push(("pieces", V::Str(hashes.iter().flat_map(|h| h.to_vec()).collect())));
         let doc = refb::enc(&refb::dict(vec![("announce", refb::s(announce)), ("info", refb::dict(info))]));
-        let meta = Metainfo::from_bencode(&doc).expect("fixture torrent must parse");
-        Torrent {
+        let meta = match crate::core::catch(|| Metainfo::from_bencode(&doc)) {
+            Ok(Ok(m)) => m,
+            Ok(Err(e)) => return Err(format!("{:?}", e)),
+            Err(p) => return Err(format!("PANIC: {}", p)),
+        };
+        Ok(Torrent {
             name: name.to_string(),
             piece_len,
             files: files.iter().map(|(p, l)| (p.to_string(), *l)).collect(),
@@ -61,7 +74,7 @@ impl Torrent {
             hashes,
             doc,
             meta,
-        }
+        })
     }
 
     pub fn total(&self) -> usize {
